@@ -220,6 +220,21 @@ CHECKS = {
     ),
 }
 
+CHECKS["C17"] = dict(
+    script="checks/c17.py",
+    level="exploration",
+    text="The real primary_generator_action.cc, unique_point_vertex_generator.cc and vertex_generator_interface.cc are compiled unmodified "
+         "against a recording stand-in for the Geant4 classes they use (particle gun with the real momentum/energy semantics, CLHEP units with "
+         "their real values so that a dropped factor is 1e9). Transfer monitor: thousands of events of random valid configurations compared "
+         "with the library API on the same engine and seed - one primary per particle, in order, species, momentum vector in MeV, time in "
+         "seconds, common vertex from the vertex generator (origin / fixed point / counting generator: exactly one ShootVertex per event). "
+         "Validation monitor: a grid of category x nuclide x mode x level x seed; refusal by the action == refusal by the core driver.",
+    note="Trusted base: the stand-in's fidelity to Geant4 (Geant4 itself is not installable offline); the adapter code runs unmodified; "
+         "messenger classes are replaced by empty stand-ins.",
+    technique="runtime monitor of the real adapter against a recording mock of the host framework + reference behaviour of the core driver",
+    design="DESIGN.md section 2, C17",
+)
+
 NOT_YET = {
 }
 
